@@ -2,12 +2,17 @@
 
    mdvgm tok*     tok = T<id>:<type>.<param>.<on>.<off>,...   track <id>
                         @<id>=<w>,<w>,...                     tag "@<id>" with these words
+                        W<name>=<hex>                         a file `<name>` with these bytes (PCM
+                                                              instruments: `@<id>=pcm,<name>[,rate=n][,offset=n]`)
+                        #<key>=<hex|->                        song tag `#<key>` (GD3 text; C08)
    answer: `vgm len=<n> fnv=<hash> hex=<bytes>` | `exc:<class>` | `unsupported`
-   The export runs with `#vgmdate 2000-01-01` and `#comment c07`. -/
+   The export runs with `#vgmdate 2000-01-01` and `#comment c07` unless the request sets them. -/
 import Driver.Common
 import Driver.Song
 import Ctrmml.Model.MdDriver
 import Ctrmml.Model.MdsData
+import Ctrmml.Model.Wave
+import Ctrmml.Model.Tags
 import Ctrmml.Spec.Schedule
 namespace Driver.MdDrvD
 open Ctrmml Ctrmml.MdDriver Driver
@@ -19,7 +24,8 @@ def parseTags (toks : List String) : Option TagList :=
   toks.foldlM (fun (acc : TagList) t =>
     if t.startsWith "@" then
       match t.splitOn "=" with
-      | [key, v] =>
+      | key :: v0 :: vs =>
+        let v := "=".intercalate (v0 :: vs)
         let ws := v.splitOn ","
         if acc.any (·.1 == key) then some (acc.map fun kv => if kv.1 == key then (kv.1, kv.2 ++ ws) else kv)
         else some (acc ++ [(key, ws)])
@@ -42,11 +48,52 @@ def fixedTags : Vgm.Tags :=
 structure Req where
   song : Song
   tags : TagList
+  /-- `W<name>=<hex>` -/
+  files : List (String × Bytes) := []
+  /-- `#<key>=<hex>` -/
+  songTags : TagMap := []
+  /-- `X<hex>`: byte strings a stream start may address (the instruments' samples; C08 judge) -/
+  expect : List Bytes := []
 
 def parseReq (arg : String) : Option Req := do
   let (song, rest) ← parseSong (words arg)
-  let tags ← parseTags rest
-  pure { song := { tracks := sortTracks song.tracks }, tags := tags }
+  let ws := rest.filter (·.startsWith "W")
+  let hs := rest.filter (·.startsWith "#")
+  let xs := rest.filter (·.startsWith "X")
+  let expect ← xs.mapM fun t => bytesOfHex (t.drop 1).toString
+  let tags ← parseTags (rest.filter fun t => !(t.startsWith "W") && !(t.startsWith "#") && !(t.startsWith "X"))
+  let files ← ws.mapM fun t => match (t.drop 1).toString.splitOn "=" with
+    | [n, h] => do pure (n, ← bytesOfHex h)
+    | _ => none
+  let st ← hs.mapM fun t => match t.splitOn "=" with
+    | [k, h] => do pure (k, [Tags.rtrim (← bytesOfHex h)])   -- `Song::set_tag` deletes trailing spaces
+    | _ => none
+  pure { song := { tracks := sortTracks song.tracks }, tags := tags, files := files, songTags := st, expect := expect }
+
+def isPcmTag (kv : String × List String) : Bool :=
+  match kv.2 with
+  | ty :: _ => ty.toLower == "pcm" && ((kv.1.drop 1).toString.toNat?).isSome
+  | [] => false
+
+/-- `add_ins_pcm` for every `@<id> pcm …` tag in tag order, on the fresh `wave_rom` -/
+def buildBank (files : List (String × Bytes)) (tags : TagList) :
+    Except Wave.Err (Wave.Bank × List (Nat × Nat) × List (Nat × Ins)) :=
+  tags.foldlM (fun (acc : Wave.Bank × List (Nat × Nat) × List (Nat × Ins)) kv =>
+    if isPcmTag kv then
+      let id := ((kv.1.drop 1).toString.toNat?).getD 0 % 65536
+      let args := kv.2.drop 1
+      match Wave.addSampleTag acc.1 (match args with | n :: _ => files.lookup n | [] => none) args with
+      | .error e => .error e
+      | .ok (b, idx) =>
+        let hdr := ((b.samples[idx]?).map (·.toBytes)).getD []
+        .ok (b, (id, idx) :: acc.2.1.filter (·.1 ≠ id),
+             (id, { type := Tables.mdsdrv_INS_PCM, data := hdr.map (·.toNat), transpose := 0 }) :: acc.2.2.filter (·.1 ≠ id))
+    else .ok acc) (Wave.Bank.new Tables.mds_dataWaveRom 0, [], [])
+
+/-- the tags the export writes: the request's `#…` tags over the two fixed ones -/
+def reqTags (r : Req) : Vgm.Tags :=
+  let m : TagMap := r.songTags ++ [("#vgmdate", ["2000-01-01".toUTF8.toList]), ("#comment", ["c07".toUTF8.toList])]
+  finalTags m { clock := "0000-00-00 00:00:00".toUTF8.toList, build := "ctrmml (built ??? ?? ???? ??:??:??)".toUTF8.toList }
 
 def errName : DErr → String
   | .input => "exc:InputError"
@@ -60,14 +107,20 @@ def model (arg : String) : String :=
   match parseReq arg with
   | none => "bad-request"
   | some r =>
-    let (st, e) := MdsData.readSong MdsData.Arith.float false r.tags
+    let (st, e) := MdsData.readSong MdsData.Arith.float false (r.tags.filter (!isPcmTag ·))
     match e with
     | some (.input _) => "exc:InputError"
     | some .unsupported => "unsupported"
     | none =>
-      match exportVgm (dataOf st) r.song fixedTags with
-      | .error e => errName e
-      | .ok b => s!"vgm len={b.length} fnv={hex64 (fnv64 b)} hex={hexOfBytes b}"
+      match buildBank r.files r.tags with
+      | .error .oob | .error .hang | .error .divZero => "UB:wave"
+      | .error _ => "exc:InputError"
+      | .ok (bank, wm, pins) =>
+        let d0 := dataOf st
+        let d : Data := { d0 with ins := pins ++ d0.ins, bank := bank, waveMap := wm }
+        match exportVgm d r.song (reqTags r) with
+        | .error e => errName e
+        | .ok b => s!"vgm len={b.length} fnv={hex64 (fnv64 b)} hex={hexOfBytes b}"
 
 /-! ### the spec oracle on the implementation's answer -/
 open Ctrmml.Schedule in
@@ -98,7 +151,11 @@ def judge (arg impl : String) : String :=
   match parseReq arg with
   | none => "skip"
   | some r =>
-    if impl.startsWith "exc:" then
+    let tagsValid := (reqTags r).toList.all fun b => VgmSpec.validUtf8 (Vgm.cstr b)
+    if impl.startsWith "exc:" ∧ !tagsValid then
+      -- a song tag that is not valid UTF-8 is an input error of the VGM export (C08)
+      if impl == "exc:InputError" then "ok" else "fail invalid UTF-8 tag not reported as InputError: " ++ impl
+    else if impl.startsWith "exc:" then
       if plainValid r.song ∧ r.tags.all (fun kv => match kv.2 with | "fm" :: rest => rest.length ≥ 42 | "psg" :: _ :: _ => true | _ => false)
       then "fail export-failed a valid plain-subset song does not export: " ++ impl else "skip"
     else
@@ -119,7 +176,44 @@ def judge (arg impl : String) : String :=
               | some w => s!"fail {w}"
               | none => s!"ok notes={v.notes} extent={v.extent}"
 
+/-! ### C08 judge on the same request: the file is well formed (`VgmSpec.analyse`), its eleven
+GD3 strings render the song's tags, every stream start addresses one of the expected samples -/
+def judge8 (arg impl : String) : String :=
+  match parseReq arg with
+  | none => "skip"
+  | some r =>
+    let tags := (reqTags r).toList
+    let tagsValid := tags.all fun b => VgmSpec.validUtf8 (Vgm.cstr b)
+    if impl.startsWith "exc:" then
+      if !tagsValid then (if impl == "exc:InputError" then "ok" else "fail range_error escaped: " ++ impl)
+      else "skip"
+    else if impl.startsWith "crash" ∨ impl == "timeout" then "fail " ++ impl
+    else
+      match getField impl "hex" with
+      | none => "fail no file produced"
+      | some hex =>
+        match bytesOfHex hex with
+        | none => "fail no file produced"
+        | some f =>
+          -- a tag the lenient decoder lets through (incomplete last sequence, 3-byte surrogates) is
+          -- outside the statement, as in the writer-level judge
+          if !tagsValid then "skip" else
+          match VgmSpec.analyse f with
+          | .error why => s!"fail {why}"
+          | .ok info =>
+            if info.strs.length ≠ 11 then s!"fail GD3 holds {info.strs.length} strings, not 11"
+            else match (info.strs.zip tags).zipIdx.find? (fun ((u, t), _) => !VgmSpec.rendersTag 256 u (Vgm.cstr t)) with
+              | some (_, i) => s!"fail GD3 string {i} does not render the tag"
+              | none =>
+                let ws := VgmSpec.streamWindows info.cmds
+                if r.expect.isEmpty then "ok"
+                else if ws.isEmpty then "fail no stream start for a song with PCM notes"
+                else match ws.find? (fun w => !r.expect.contains w) with
+                  | some w => s!"fail stream start addresses {w.length} bytes that are not an instrument's sample"
+                  | none => "ok"
+
 def handlers : List Driver.Handler :=
-  [{ cmd := "mdvgm", model := model, judge := judge }]
+  [{ cmd := "mdvgm", model := model, judge := judge },
+   { cmd := "c08song", model := model, judge := judge8 }]
 
 end Driver.MdDrvD
